@@ -439,6 +439,103 @@ func TestRandomLongSequences(t *testing.T) {
 	})
 }
 
+// Deep and long sentences: the grammar bounds neither the nesting depth of brackets nor the number of alternatives or
+// juxtaposed operands, so a driver stack, a recursion or a fixed-size buffer must not either.
+func TestDeepAndLongSequences(t *testing.T) {
+	rec.Rule(rule)
+	size := rapid.OneOf(rapid.IntRange(1, 40),
+		rapid.SampledFrom([]int{127, 128, 129, 255, 256, 257, 509, 510, 511, 512, 513, 1016, 1017, 1018, 1019, 1023, 1024, 1025, 2047, 2048, 2049, 3000}),
+		rapid.IntRange(41, 3500))
+	open := []string{"(", "[", "{", "{{"}
+	closeOf := map[string]string{"(": ")", "[": "]", "{": "}", "{{": "}}"}
+	operands := []string{"IDENT", "TOKEN", "STRING"}
+	rec.Check(t, 120, 6000, func(t *rapid.T) {
+		shape := rapid.SampledFrom([]string{"nest", "alt", "cat", "nest_alt", "decls", "handles"}).Draw(t, "shape")
+		n := size.Draw(t, "n")
+		kinds := []string{"grammar", "IDENT", ";"}
+		operand := func() string { return rapid.SampledFrom(operands).Draw(t, "operand") }
+		nest := func(d int, inner func()) {
+			var closers []string
+			same := rapid.Bool().Draw(t, "sameBracket")
+			b := rapid.SampledFrom(open).Draw(t, "bracket")
+			for i := 0; i < d; i++ {
+				if !same {
+					b = open[(i*7+len(closers))%4]
+				}
+				kinds = append(kinds, b)
+				closers = append(closers, closeOf[b])
+			}
+			inner()
+			for i := len(closers) - 1; i >= 0; i-- {
+				kinds = append(kinds, closers[i])
+			}
+		}
+		alts := func(k int) {
+			for i := 0; i < k; i++ {
+				if i > 0 {
+					kinds = append(kinds, "|")
+				}
+				kinds = append(kinds, operand())
+			}
+		}
+		switch shape {
+		case "nest":
+			kinds = append(kinds, "IDENT", "=")
+			nest(n, func() { kinds = append(kinds, operand()) })
+			kinds = append(kinds, ";")
+		case "alt":
+			kinds = append(kinds, "IDENT", "=")
+			alts(n)
+			if rapid.Bool().Draw(t, "trailingBar") {
+				kinds = append(kinds, "|")
+			}
+			kinds = append(kinds, ";")
+		case "cat":
+			kinds = append(kinds, "IDENT", "=")
+			for i := 0; i < n; i++ {
+				kinds = append(kinds, operand())
+			}
+			kinds = append(kinds, ";")
+		case "nest_alt":
+			kinds = append(kinds, "IDENT", "=")
+			k := size.Draw(t, "k")
+			if n+2*k > 4500 {
+				k = (4500 - n) / 2
+			}
+			nest(n, func() { alts(k + 1) })
+			kinds = append(kinds, ";")
+		case "decls":
+			for i := 0; i < n; i++ {
+				kinds = append(kinds, "IDENT", "=", operand())
+				if rapid.Bool().Draw(t, "semi") {
+					kinds = append(kinds, ";")
+				}
+			}
+		case "handles":
+			kinds = append(kinds, "@left")
+			for i := 0; i < n; i++ {
+				kinds = append(kinds, rapid.SampledFrom([]string{"TOKEN", "STRING"}).Draw(t, "handle"))
+			}
+			kinds = append(kinds, ";")
+		}
+		edited := false
+		if rapid.IntRange(0, 3).Draw(t, "edit") == 0 {
+			edited = true
+			pos := rapid.IntRange(0, len(kinds)-1).Draw(t, "pos")
+			kinds[pos] = rapid.SampledFrom(ref.TokenKinds).Draw(t, "k")
+		}
+		acc, _, err := checkSequence(kinds, true)
+		rec.Case(strings.Join(kinds, " "), n >= 500, "deep_"+shape, fmt.Sprintf("deep_accepted=%v", acc), fmt.Sprintf("deep_edited=%v", edited))
+		if err != nil {
+			msg := err.Error()
+			if len(msg) > 1500 {
+				msg = msg[:700] + " ... " + msg[len(msg)-700:]
+			}
+			rec.Fail(t, "kinds", input{Kinds: kinds}, "%s (shape %s, size %d)", msg, shape, n)
+		}
+	})
+}
+
 func TestReplay(t *testing.T) {
 	if !rec.IsReplay() {
 		t.Skip("not in replay mode")
